@@ -933,6 +933,7 @@ class HfProtocol(utils.EventEmitter):
             self.supported_ag_call_hold_operations = [
                 CallHoldOperation(operation.decode())
                 for operation in response.parameters[0]
+                if operation
             ]
 
         # 4.2.1.4 HF Indicators
@@ -958,6 +959,9 @@ class HfProtocol(utils.EventEmitter):
 
             logger.info("supported HF indicators:")
             for indicator in response.parameters[0]:
+                if not indicator:
+                    # Empty list
+                    continue
                 indicator = HfIndicator(int(indicator))
                 logger.info(f"  - {indicator.name}")
                 if indicator in self.hf_indicators:
